@@ -76,7 +76,7 @@ def worker(k, q, results):
 
 def main():
     workers = int(sys.argv[1]) if len(sys.argv) > 1 else 4
-    ids = sys.argv[2:] or sorted(os.listdir(os.path.join(ROOT, 'seeded')))
+    ids = sys.argv[2:] or sorted(d for d in os.listdir(os.path.join(ROOT, 'seeded')) if os.path.isdir(os.path.join(ROOT, 'seeded', d)))
     q = queue.Queue()
     for s in ids:
         q.put(s)
